@@ -86,13 +86,14 @@ def readStep (c : IniCfg) (st : ReadState) : Line → Except IniErr ReadState
 def readIni (c : IniCfg) (lines : List Line) : Except IniErr Ini :=
   (lines.foldlM (readStep c) ⟨⟨[], []⟩, none, [], []⟩).map (·.ini)
 
-/-- `has_option(section, key)`: own options or defaults -/
+/-- `has_option(section, key)`: the section's own options; in the shipped configuration (`ownKeys = false`) also the keys of the default
+    section `[Variables]` (a variable then counted as an item of every section) -/
 def hasOption (c : IniCfg) (ini : Ini) (s k : String) : Bool :=
   let tk := testKey c k
   if s == "Variables" then ini.vars.any (fun p => p.1 == tk)
   else match ini.sections.find? (fun p => p.1 == s) with
     | none => false
-    | some (_, kvs) => kvs.any (fun p => p.1 == tk) || ini.vars.any (fun p => p.1 == tk)
+    | some (_, kvs) => kvs.any (fun p => p.1 == tk) || (!c.ownKeys && ini.vars.any (fun p => p.1 == tk))
 
 /-- what `for k in cp[section]` iterates -/
 def sectionKeys (c : IniCfg) (ini : Ini) (s : String) : List String :=
